@@ -123,7 +123,13 @@ def fam_histories(rng, n, maxlen=3, prefix="hist"):
             kinds.append(kind)
             id_ = 10 + (j % 2)           # histories share ids on purpose
             side = rng.choice("HP") if j else "HP"[i % 2]
+            st = rng.getstate()
             d, a, h = history_piece(rng, kind, id_, side, t, j + 1)
+            # the contract: no two Accepts for one id on one broker at the same time (an Accept can sit
+            # for 5 s, longer if its goroutine is held) -- a piece that would break it gets an id of its own
+            if any(x["side"] == y["side"] and x["id"] == y["id"] and abs(x["at"] - y["at"]) < 16000 for x in a for y in accepts):
+                rng.setstate(st)
+                d, a, h = history_piece(rng, kind, 20 + j, side, t, j + 1)
             dials += d; accepts += a; holds += h
             t += rng.choice([0, 100, 6000, 11000])
         # the fresh pair, after everything above has expired or while it is still pending
